@@ -476,7 +476,30 @@ func runIdxIntersect(c *core.Ctx) {
 			}
 		}
 	})
-	c.Check(inter, nil, fname(c, find), "intersect-across-conditions", P.Pos(find.Pos()), "a candidate absent from another condition's set is removed (intersection)", "candidates are not intersected across conditions: an event matching only one of several conditions is returned")
+	// … repeated until one set is left: the loop runs while len(sets) > 1 and drops one set per round
+	loopOK := false
+	an.Instrs(find, func(in ssa.Instruction) {
+		iff, ok := in.(*ssa.If)
+		if !ok || len(an.Latches(iff.Block())) == 0 {
+			return
+		}
+		b, ok := iff.Cond.(*ssa.BinOp)
+		if !ok || b.Op != token.GTR || !strings.HasPrefix(an.PathOf(b.X), "len(") {
+			return
+		}
+		if k, isK := an.ConstInt(b.Y); !isK || k != 1 {
+			return
+		}
+		// a latch re-slices the list to len-1
+		for _, l := range an.Latches(iff.Block()) {
+			for _, li := range l.Instrs {
+				if sl, ok := li.(*ssa.Slice); ok && sl.High != nil && strings.Contains(an.PathOf(sl.High), "- const:1") {
+					loopOK = true
+				}
+			}
+		}
+	})
+	c.Check(inter && loopOK, nil, fname(c, find), "intersect-across-conditions", P.Pos(find.Pos()), "a candidate absent from another condition's set is removed, round after round while more than one set is left (intersection of all conditions)", fmt.Sprintf("candidates are not intersected across all conditions (removal on miss: %v, loop 'while len > 1, drop one set per round': %v): an event matching only some of several conditions is returned", inter, loopOK))
 	// (c) residual matcher: literal with exactly Since and Until of the filter
 	resid := false
 	an.Instrs(find, func(in ssa.Instruction) {
